@@ -68,41 +68,17 @@ Theorem C20_warning_cites_definition : forall defs w l,
 Proof. exact warning_cites_definition. Qed.
 Print Assumptions C20_warning_cites_definition.
 
-(* column of a token: right (1-based) on every line but the first ... *)
+(* column of a token: the 1-based column, on every line (fix 0c86660 removed the line-1 exception) *)
 Theorem C20_col : forall text pos,
-  (pos <= String.length text)%nat -> 2 <= fst (linecol text pos) ->
-  col_of text pos = snd (linecol text pos).
-Proof. exact col_correct_after_line1. Qed.
+  (pos <= String.length text)%nat -> col_of text pos = snd (linecol text pos).
+Proof. exact col_correct. Qed.
 Print Assumptions C20_col.
 
-(* ... and one too small on line 1 (rfind returns -1, clamped to 0): finding col-line1 *)
-Theorem C20_col_line1_refuted : exists text pos,
-  (pos <= String.length text)%nat /\ fst (linecol text pos) = 1 /\ col_of text pos <> snd (linecol text pos).
-Proof. exact col_line1_refuted. Qed.
-Print Assumptions C20_col_line1_refuted.
-
-Theorem C20_col_line1_off_by_one : forall text pos,
-  (pos <= String.length text)%nat -> fst (linecol text pos) = 1 ->
-  col_of text pos = snd (linecol text pos) - 1.
-Proof. exact col_line1. Qed.
-Print Assumptions C20_col_line1_off_by_one.
-
-Theorem C20_col_no_uniform_base : ~ exists base, forall text pos,
-  (pos <= String.length text)%nat -> col_of text pos = base + (snd (linecol text pos) - 1).
-Proof. exact col_no_uniform_base. Qed.
-Print Assumptions C20_col_no_uniform_base.
-
-(* the indent attribute (offset of the first token in its line): same picture *)
+(* the indent attribute: 0-based offset of the first token in its line, on every line *)
 Theorem C20_indent : forall text pos,
-  (pos <= String.length text)%nat -> 2 <= fst (linecol text pos) ->
-  indent_of text pos = snd (linecol text pos) - 1.
-Proof. exact indent_correct_after_line1. Qed.
+  (pos <= String.length text)%nat -> indent_of text pos = snd (linecol text pos) - 1.
+Proof. exact indent_correct. Qed.
 Print Assumptions C20_indent.
-
-Theorem C20_indent_line1_refuted : exists text pos,
-  (pos <= String.length text)%nat /\ fst (linecol text pos) = 1 /\ indent_of text pos <> snd (linecol text pos) - 1.
-Proof. exact indent_line1_refuted. Qed.
-Print Assumptions C20_indent_line1_refuted.
 
 (* line numbers: given the structural facts of lexer.py that the translator establishes on
    every run (C20_lexer_structure), a token's lineno is 1 + the number of newlines before it *)
@@ -163,6 +139,7 @@ Proof. vm_compute. split; reflexivity. Qed.
 Example C20_nonvacuous_positions :
   let text := String "010" "message Foo {" ++ String "010" "    uint3 x = 1" in
   linecol text 9 = (2, 9) /\ col_of text 9 = 9 /\ indent_of text 19 = 4 /\ linecol text 19 = (3, 5) /\
+  col_of "message A {" 8 = 9 /\ indent_of "message A {" 0 = 0 /\ indent_of "    const A = 1" 4 = 4 /\
   lex_linenos [mkPiece "t_IDENTIFIER" "proto"; mkPiece "t_newline" (String "010" ""); mkPiece "t_COMMENT" "// x";
                mkPiece "t_newline" (String "010" ""); mkPiece "t_IDENTIFIER" "message"] 1 = [1; 1; 2; 2; 3].
 Proof. vm_compute. repeat split; reflexivity. Qed.
